@@ -3,7 +3,7 @@
 manifest is always valid and current)."""
 import json, subprocess
 
-HOOK_COMMITS = ["00a6da5", "138be5b", "b138b83"]
+HOOK_COMMITS = ["00a6da5", "138be5b", "b138b83", "c88384f", "12acee3"]
 
 CHECKS = {
  "C01": dict(engine="seqx", technique="explicit-state BFS over operation histories on the real store vs reference model (bounded exhaustive)",
